@@ -1,5 +1,6 @@
 import DispatchVerif.Core.LaneW
 import DispatchVerif.Core.SuspendP
+import DispatchVerif.Core.ActP
 import DispatchVerif.Core.LaneRResp
 import DispatchVerif.Core.LaneFFifoMain
 /-! L-trace prototype with the Lean model itself: every recorded dq_state transition of the real
@@ -72,20 +73,32 @@ def explained (func : String) (op W : Nat) (t : Tid) (o n : Dq) : Bool :=
     ops.any fun op =>
     (step W (mkSh o items [t]) t pc op).any fun r => dqEq r.1.dq n ignoreO && (ignoreO → n.O.isSome)
 
-/-- suspend/resume transitions against SuspendP.step: compare the inline count and the side bit -/
-def suspExplained (func : String) (x y : Nat) : Bool :=
+/-- suspend/resume transitions against SuspendP.step: compare the inline count and the side bit. The side count
+    itself (`dq_side_suspend_cnt`, a plain field written under the side lock) is not in the trace; the slow-path
+    read-modify-writes are serialised by that lock, so the replayer tracks it: +32 at every successful
+    `_dispatch_lane_suspend_slow` transition, −32 at every successful `_dispatch_lane_resume_slow` one. -/
+def suspExplained (func : String) (x y : Nat) (side : Nat) : Bool :=
   let c := x >>> 58; let sb := bit x 57
   let c' := y >>> 58; let sb' := bit y 57
-  let sides : List Nat := if sb then [32, 64, 96] else [0]
   let pcs : List (SuspendP.Pc × SuspendP.Op) := match func with
     | "_dispatch_lane_suspend" => [(.idle, .suspend)]
     | "_dispatch_lane_suspend_slow" => [(.sRmw, .suspend)]
     | "_dispatch_lane_resume" => [(.idle, .resume)]
     | "_dispatch_lane_resume_slow" => [(.rRmw, .resume)]
     | _ => []
-  pcs.any fun (pc, op) => sides.any fun side =>
+  pcs.any fun (pc, op) =>
     (SuspendP.step { c := c, sbit := sb, side := side, lock := some 1, logical := c + side } 1 pc op).any fun r =>
       r.1.c == c' && r.1.sbit == sb'
+
+/-- transitions of `_dispatch_lane_resume` that touch INACTIVE (bit 56) / NEEDS_ACTIVATION (bit 55), against `ActP.step`:
+    compare the inline count (no side count while these bits are handled), INACTIVE and NEEDS_ACTIVATION -/
+def actExplained (func : String) (x y : Nat) : Bool :=
+  let c := x >>> 58; let ina := bit x 56; let na := bit x 55
+  let c' := y >>> 58; let ina' := bit y 56; let na' := bit y 55
+  if func != "_dispatch_lane_resume" || bit x 57 || bit y 57 then false else
+  [ActP.Op.activate, ActP.Op.resume].any fun op => [c, c + 1, c - 1, 1].any fun lg =>
+    (ActP.step { n := c, inactive := ina, na := na, logical := lg } 1 .idle op).any fun r =>
+      r.1.n == c' && r.1.inactive == ina' && r.1.na == na'
 
 /-! the serial models the C01 / C02 theorems are about (`LaneR`: exclusion + no stranded work; `LaneF`: FIFO) must
     explain every transition of a serial queue as well -/
@@ -145,9 +158,11 @@ def main (args : List String) : IO UInt32 := do
   let mut st : Stats := {}
   let mut widths : List (Nat × Nat) := []
   let mut stateoff := "56"
+  let mut sides : List (Nat × Nat) := []
   for path in args do
     let lines := (← IO.FS.readFile path).splitOn "\n"
     widths := []
+    sides := []
     for line in lines do
       match line.splitOn " " with
       | ["Q", q, "width", w, "stateoff", so] => widths := (q.toNat!, w.toNat!) :: widths; stateoff := so
@@ -158,8 +173,18 @@ def main (args : List String) : IO UInt32 := do
         st := { st with total := st.total + 1 }
         if unmodelledFuncs.contains func then
           if func == "_dispatch_queue_invoke_finish" then st := { st with unmodelled := st.unmodelled + 1 }
-          else if suspExplained func (hexVal old) (hexVal new) then st := { st with suspOk := st.suspOk + 1 }
-          else st := { st with bad := (s!"{path}: {line}") :: st.bad }
+          else
+            let qn := q.toNat!
+            let side := (sides.lookup qn).getD 0
+            let touchesAct := bit (hexVal old) 55 || bit (hexVal old) 56 || bit (hexVal new) 55 || bit (hexVal new) 56
+            if touchesAct && ((hexVal old) >>> 55) % 4 != ((hexVal new) >>> 55) % 4 then
+              if actExplained func (hexVal old) (hexVal new) then st := { st with suspOk := st.suspOk + 1 }
+              else st := { st with bad := (s!"{path}: {line} (activation transition)") :: st.bad }
+            else if suspExplained func (hexVal old) (hexVal new) side then
+              st := { st with suspOk := st.suspOk + 1 }
+              if func == "_dispatch_lane_suspend_slow" then sides := (qn, side + 32) :: sides.filter (·.1 ≠ qn)
+              if func == "_dispatch_lane_resume_slow" then sides := (qn, side - 32) :: sides.filter (·.1 ≠ qn)
+            else st := { st with bad := (s!"{path}: {line} (tracked side count {side})") :: st.bad }
           continue
         let W := (widths.lookup q.toNat!).getD 1
         match decodeDq (hexVal old) W, decodeDq (hexVal new) W with
